@@ -72,11 +72,32 @@ package ggql
 //@   requires fieldDefsOk(t.fields.list)
 //@   assigns fresh
 
+//@ -- ------------------------------------------------------------------ directive loops: the recursion ends because every
+//@ -- descent marks one more directive name, and there are only #D of them
+//@ -- dirName(k): k names a directive of the schema; #D is their number (ghost constant). Trusted: a directive use refers to
+//@ -- a directive of the schema (fieldinv DirectiveUse.Directive), and the two facts about the size of a finite set below.
+//@ spec dirName(k string) bool
+//@ spec marked(m map[string]bool) int reads MH_Str_Bool, MD_Str_Bool
+//@ axiom markedBounded(m map[string]bool): (forall k string {m[k]} :: m[k] ==> dirName(k)) ==> 0 <= marked(m) && marked(m) <= #D
+//@ axiom markedGrows(m map[string]bool, x string): (forall k string {m[k]} :: old(m[k]) ==> m[k]) && m[x] && !old(m[x]) ==> marked(m) >= old(marked(m)) + 1
+//@ spec onlyDirNames(m map[string]bool) bool = forall k string {m[k]} :: m[k] ==> dirName(k)
 //@ func (*Directive).hasDirLoop
 //@   props C03
 //@   check panic {C03}
 //@   requires t != nil
-//@   requires[visited-set] hits != nil
+//@   requires[visited-set] hits != nil && onlyDirNames(hits)
+//@   ensures[visited-only-grows] forall k string {hits[k]} :: old(hits[k]) ==> hits[k]
+//@   ensures[visited-are-directives] onlyDirNames(hits)
+//@   decreases #D - marked(hits)
+//@   use markedBounded(hits)
+//@   use markedGrows(hits, name)
+//@   assigns fresh, hits
+//@   loop 0: invariant[grows] forall k string {hits[k]} :: old(hits[k]) ==> hits[k]
+//@           invariant[names] onlyDirNames(hits) && hits != nil
+//@   loop 1: invariant[grows] forall k string {hits[k]} :: old(hits[k]) ==> hits[k]
+//@           invariant[names] onlyDirNames(hits) && hits != nil
+//@           use markedGrows(hits, name)
+//@           use markedBounded(hits)
 
 //@ -- assumed of file systems handed to ParseFS: a successful Open returns a file
 //@ interface fs.FS.Open
